@@ -279,9 +279,36 @@ class TreeFacts:
                 if any(isinstance(n_, ast.Name) and n_.id == q and isinstance(n_.ctx, ast.Store) for n_ in ast.walk(f.node)):
                     raise AnalysisError("%s: the query is reassigned in the iterative descent" % fname)
                 descents.append((None, st_, loop_))
+        # "select the subtree, then recurse once": a recursive call whose node argument is a local bound to node.<child> on several paths
+        # is one descent per such binding - its guard is the guard of the binding plus the guard of the call with the local replaced
+        expanded = []
+        from ..core import clone as _cl
         for call, st, loop_ in descents:
+            sel = None
+            if call is not None:
+                pa = _bind_call(call, f).get(nodep)
+                if isinstance(pa, ast.Name) and pa.id != nodep:
+                    sel = pa.id
+            if sel is None:
+                expanded.append((call, st, loop_, None, None))
+                continue
+            for d_ in dflow.defs(sel, call):
+                if d_ == "param" or not isinstance(d_, ast.Assign):
+                    raise AnalysisError("%s: the subtree handed to the recursive call is not bound by plain assignments" % fname)
+                v_ = d_.value
+                if isinstance(v_, ast.Constant) and v_.value is None:
+                    continue                 # "no subtree": the call is guarded by `<local> is not None`
+                if not (isinstance(v_, ast.Attribute) and norm(v_.value) == nodep):
+                    raise AnalysisError("%s: the subtree handed to the recursive call is bound to %s" % (fname, norm(v_)))
+
+                class _R(ast.NodeTransformer):
+                    def visit_Name(self, n_):
+                        return _cl(v_) if n_.id == sel and isinstance(n_.ctx, ast.Load) else n_
+                ch = list(guard_chain(d_)) + [(ast.fix_missing_locations(_R().visit(_cl(t_))), p_) for t_, p_ in guard_chain(st, stop=loop_)]
+                expanded.append((call, st, loop_, ch, v_))
+        for call, st, loop_, chain_over, passed_over in expanded:
             orig = st
-            chain = guard_chain(st, stop=loop_)
+            chain = chain_over if chain_over is not None else guard_chain(st, stop=loop_)
             if not chain:
                 raise AnalysisError("%s: unguarded recursive call" % fname)
             # which child does the guard test for presence
@@ -316,7 +343,7 @@ class TreeFacts:
                 bound = _bind_call(call, f)
             else:
                 bound = {nodep: orig.value, q: ast.Name(id=q, ctx=ast.Load())}
-            passed = bound.get(nodep)
+            passed = passed_over if passed_over is not None else bound.get(nodep)
             passed_attr = passed.attr if (isinstance(passed, ast.Attribute) and isinstance(passed.value, ast.Name)
                                           and passed.value.id == nodep) else None
             call = call if call is not None else st
@@ -619,6 +646,8 @@ class TreeFacts:
             val = None
             for st in flow.stmts:
                 if isinstance(st, ast.Assign) and len(st.targets) == 1 and dotted(st.targets[0]) == "self." + attr:
+                    if isinstance(st.value, ast.Constant) and st.value.value is None:
+                        continue        # the empty tree has no extent
                     val = (st, flow.resolve(st.value, at=st))
             if val is None:
                 if attr in want:
@@ -749,10 +778,15 @@ class TreeFacts:
         P0 = fi.params[1]
         reds = [c_ for c_ in calls_in(fi.node, ("min", "max", "amin", "amax")) if c_.args and str(norm(c_.args[0])) == P0 or
                 (isinstance(c_.func, ast.Attribute) and str(norm(c_.func.value)) == P0 and c_.func.attr in ("min", "max"))]
-        guards = [st for st in iflow.stmts if isinstance(st, ast.If) and emptiness_test_kind(st.test, about=P0) == "size" and any(isinstance(x, ast.Return) for x in st.body)]
+        guards = [st for st in iflow.stmts if isinstance(st, ast.If) and emptiness_test_kind(st.test, about=P0) == "size"]
+        # under "the array is empty" no reduction over it is reached (guard clause that returns, or if / else)
+        empty_asm = {}
+        for sz_ in ("%s.size" % P0, "len(%s)" % P0, "%s.shape[0]" % P0):
+            empty_asm.update({"not %s" % sz_: True, sz_: False, "%s == 0" % sz_: True, "0 == %s" % sz_: True, "%s > 0" % sz_: False, "%s != 0" % sz_: False,
+                              "%s >= 1" % sz_: False, "%s < 1" % sz_: True})
         okg = True
         if reds:
-            okg = bool(guards) and all(iflow.cfg.dominated_by(n_, set(iflow.cfg.nodes(guards[0]))) for c_ in reds for n_ in iflow.cfg.nodes(enclosing_stmt(c_)))
+            okg = bool(guards) and all(not iflow.live_under(enclosing_stmt(c_), empty_asm) for c_ in reds)
         root_none = True
         for fname in ("_query", "_query_point"):
             qf = ctx.func(TREES, "IntervalTree." + fname)
@@ -1167,10 +1201,13 @@ def rule_match(ctx):
                "the secondaries are widened before IntervalTree(...) copies them", node=trees[0], func=f)
     # result loop
     qst = enclosing_stmt(queries[0])
-    if not (isinstance(qst, ast.Assign) and isinstance(qst.targets[0], ast.Name)):
-        raise AnalysisError("match(): the result of tree.query is not assigned to a name")
-    resname = qst.targets[0].id
-    loops = [st for st in flow.stmts if isinstance(st, ast.For) and any(isinstance(n, ast.Name) and n.id == resname for n in ast.walk(st.iter))]
+    if isinstance(qst, ast.Assign) and isinstance(qst.targets[0], ast.Name):
+        resname = qst.targets[0].id
+    elif isinstance(qst, ast.For) and any(n is queries[0] for n in ast.walk(qst.iter)):
+        resname = str(norm(queries[0]))          # the results are walked where they are computed
+    else:
+        raise AnalysisError("match(): the result of tree.query is neither assigned to a name nor iterated directly")
+    loops = [st for st in flow.stmts if isinstance(st, ast.For) and any((isinstance(n, ast.Name) and n.id == resname) or n is queries[0] for n in ast.walk(st.iter))]
     if len(loops) != 1:
         raise AnalysisError("match(): expected one loop over the results of tree.query")
     lp = loops[0]
